@@ -650,6 +650,9 @@ def json_Unmarshal(ex, st, args, ctx):
             return NIL
         return Iface(-1, Opaque('error', msg=S('json: cannot unmarshal'), origin=ctx['pos']))
     c = z3.Bool(ex.newsym('json_decodes'))
+    via_dec = isinstance(doc, Opaque) and getattr(doc, 'via_decoder', False)
+    if not via_dec:
+        c = z3.And(c, i_body_wellformed(ex, st, [], ctx))
 
     def ok(s2):
         ex.store(s2, target.v, havoc(ex, s2, et, 'json'))
@@ -1304,3 +1307,48 @@ BASE.update({'(encoding/binary.bigEndian).PutUint32': be_PutUint32, '(encoding/b
 BASE.update({'(*sync.Mutex).Lock': lambda ex, st, a, c: None, '(*sync.Mutex).Unlock': lambda ex, st, a, c: None,
              '(*sync.RWMutex).Lock': lambda ex, st, a, c: None, '(*sync.RWMutex).Unlock': lambda ex, st, a, c: None,
              '(*sync.RWMutex).RLock': lambda ex, st, a, c: None, '(*sync.RWMutex).RUnlock': lambda ex, st, a, c: None})
+
+
+# ------------------------------------------------------------------------------------------ sync.Mutex with state (deadlock = lock of a held mutex); body well-formedness
+def mutex_Lock(ex, st, args, ctx):
+    used('sync.Mutex: Lock of a mutex already held on this (sequential) path never returns: reported as deadlock')
+    key = ('mutex', args[0].obj, args[0].path)
+    if st.heap.get(key):
+        raise PathEnd('panic', 'deadlock: Lock of a mutex that is still held (never released on an earlier path) at %s' % ctx['pos'])
+    st.heap[key] = ctx['pos'] or True
+    return None
+
+
+def mutex_Unlock(ex, st, args, ctx):
+    key = ('mutex', args[0].obj, args[0].path)
+    if not st.heap.get(key):
+        raise PathEnd('panic', 'unlock of unlocked mutex at %s' % ctx['pos'])
+    st.heap[key] = None
+    return None
+
+
+def i_no_locks_held(ex, st, args, ctx):
+    return z3.BoolVal(not any(isinstance(k, tuple) and k and k[0] == 'mutex' and v for k, v in st.heap.items()))
+
+
+def i_body_wellformed(ex, st, args, ctx):
+    return st.heap.setdefault(('body_wf',), z3.Bool('body_is_one_wellformed_json_document'))
+
+
+def json_NewDecoder(ex, st, args, ctx):
+    return Opaque('jsondecoder', src=args[0])
+
+
+def json_Decoder_Decode(ex, st, args, ctx):
+    used('(*json.Decoder).Decode: decodes the first JSON value of the stream and ignores what follows (so it can succeed on input that is not one well-formed document)')
+    target = args[1]
+    m = find_method(ex, target.t, 'UnmarshalJSON')
+    o = st.alloc(Opaque('bodybytes', via_decoder=True))
+    data = Slice(o, 0, z3.BitVec(ex.newsym('vallen'), 64), 0)
+    if m is not None and m in ex.funcs:
+        return ('tailcall', m, [target.v, data])
+    return json_Unmarshal(ex, st, [data, target], ctx)
+
+
+BASE.update({'(*sync.Mutex).Lock': mutex_Lock, '(*sync.Mutex).Unlock': mutex_Unlock, 'encoding/json.NewDecoder': json_NewDecoder, '(*encoding/json.Decoder).Decode': json_Decoder_Decode})
+INTRINSICS.update({'verifNoLocksHeld': i_no_locks_held, 'verifBodyWellFormed': i_body_wellformed})
